@@ -24,7 +24,7 @@ from ..model import Repo, dotted, load_repo
 from ..opsummary import OpSummary, all_summaries, dropped_roots, fresh_nodes, kept_values, name_binding, reach, roots_of, sunk_values
 from ..report import AnalysisError, Report
 from ..util import body_walk, src, store_targets
-from ..vmvals import Cond, Const, Fresh, Seq, SliceV, Unknown, Val
+from ..vmvals import Cond, Const, Fresh, Item, Seq, SliceV, Unknown, Val
 
 BUILTIN_ALIASES = {"__builtin__", "__builtins__", "builtins"}
 
@@ -97,6 +97,17 @@ def check_emit(repo: Repo, rep: Report, sums: List[OpSummary]):
                         okf = parts[2] in br
                 else:
                     okf = fspec in fr
+                    # the callee must be the VM operand itself, not something derived from it (an attribute of it,
+                    # a wrapper): the VM calls exactly that object.  NEWOBJ/NEWOBJ_EX may spell the VM's
+                    # cls.__new__(cls, ...) literally.
+                    fv = c.fields.get("func")
+                    if okf and name in ("REDUCE", "OBJ", "NEWOBJ", "NEWOBJ_EX"):
+                        is_operand = (isinstance(fv, Item) and fv.label == fspec) or (isinstance(fv, SliceV) and fv.part == "first" and fspec == "slice")
+                        is_new = name in ("NEWOBJ", "NEWOBJ_EX") and isinstance(fv, Fresh) and fv.cls == "ast.Attribute" and isinstance(fv.fields.get("attr"), Const) and fv.fields["attr"].value == "__new__" and isinstance(fv.fields.get("value"), Item) and fv.fields["value"].label == fspec
+                        if not (is_operand or is_new):
+                            okf = False
+                            why.append(f"call@{c.line}: callee is `{fv.short() if fv is not None else None}`, derived from the operand but not the operand itself")
+                            continue
                 oka = spec["args"] in ar
                 if okf and oka:
                     good = c
